@@ -112,7 +112,7 @@ func GenTree(t *rapid.T, cfg TreeCfg) *Tree {
 		}
 		if invalidLeft > 0 && rapid.IntRange(0, 5).Draw(t, "break") == 0 {
 			invalidLeft--
-			rule := rapid.SampledFrom([]string{"bad-merkle", "high-hash", "time-too-old", "bad-bits", "coinbase-overpay", "double-spend", "spent-input"}).Draw(t, "rule")
+			rule := rapid.SampledFrom([]string{"bad-merkle", "high-hash", "time-too-old", "bad-bits", "coinbase-overpay", "double-spend", "spent-input", "non-final-coinbase"}).Draw(t, "rule")
 			switch rule {
 			case "double-spend", "spent-input":
 				if tx := badSpend(t, tr, parent, rule, opt.Txs); tx != nil {
